@@ -13,6 +13,15 @@
  *       = mkfs.c main(): dir_tree_iterator_create(packdir, cfg); scan_directory(fs, dir, 0, NULL); post process
  *   packfile <order> <file> <packdir> <d.uid> <d.gid> <d.mtime> <d.mode> <dirscan_flags> <force_uid> <force_gid>
  *       = fstree_from_file(fs, file, opt); post process          (pack file with `glob` lines)
+ *   direct <full|count> <d.uid> <d.gid> <d.mtime> <d.mode> <n> { <A|L> <path> <mode> <uid> <gid> <mtime> <rdev> <extra> }
+ *       = fstree_add_generic() called directly for every entry (L: SQFS_DIR_ENTRY_FLAG_HARD_LINK, extra = link target;
+ *         extra "-" = NULL, "p:<hex>" = string), then fstree_post_process     → dump (full) | "ok n=<count>" (count) | "err"
+ *   isort <name>*
+ *       = fstree_add_generic() of a regular file of each name, in the order given, into an empty tree; prints the names of
+ *         the root's children in list order (insert_sorted)                       → "ok <name>*" | "err"
+ *   sortfiles <sort file> <n> <path>*
+ *       = regular files at the given paths (parents created implicitly), fstree_post_process, fstree_sort_files with the
+ *         given sort file (bin/gensquashfs/src/sort_by_file.c)   → "ok pre <path>* post <path>:<flags>*" | "err"
  * Result line:  "ok <dump> @@ <readdir log lines joined by ';'>"   or   "err @@ <log>"
  *   dump = "n=<unique_inode_count>" { " N <path> <mode> <uid> <gid> <mtime> <nlink> <implicit> <hard> <rdev> <extra> <inum>" }
  *          " F" { " <path>" }            (nodes in DFS pre-order, children in list order; files = fs->files)
@@ -134,13 +143,23 @@ int main(void)
 	(void)errsink;
 
 	while ((len = getline(&line, &cap, stdin)) > 0) {
-		char *argv[16], *save = NULL, *t;
+		static char **argv = NULL;
+		static size_t argmax = 0;
+		char *save = NULL, *t;
 		int argc = 0, ok = 0;
 		fstree_defaults_t defaults;
 		fstree_t fs;
 
-		for (t = strtok_r(line, " \r\n", &save); t != NULL && argc < 16; t = strtok_r(NULL, " \r\n", &save))
+		for (t = strtok_r(line, " \r\n", &save); t != NULL; t = strtok_r(NULL, " \r\n", &save)) {
+			if ((size_t)argc == argmax) {
+				argmax = argmax ? argmax * 2 : 64;
+				argv = realloc(argv, argmax * sizeof(argv[0]));
+				if (argv == NULL)
+					abort();
+			}
 			argv[argc++] = t;
+		}
+		if (argc == 0) { puts("bad-op"); fflush(stdout); continue; }
 
 		if (argc == 11 && strcmp(argv[0], "packdir") == 0) {
 			char *dirpath = tok_str(argv[2]);
@@ -212,6 +231,129 @@ int main(void)
 			fstree_cleanup(&fs);
 			free(file);
 			free(packdir);
+		} else if (argc >= 7 && strcmp(argv[0], "direct") == 0) {
+			long n = strtol(argv[6], NULL, 10), i;
+
+			if (n < 0 || argc != 7 + 8 * n) { puts("bad-op"); continue; }
+			memset(&defaults, 0, sizeof(defaults));
+			defaults.uid = strtoul(argv[2], NULL, 10);
+			defaults.gid = strtoul(argv[3], NULL, 10);
+			defaults.mtime = strtoul(argv[4], NULL, 10);
+			defaults.mode = strtoul(argv[5], NULL, 10);
+			if (fstree_init(&fs, &defaults)) { puts("bad-op"); continue; }
+			ok = 1;
+			for (i = 0; i < n && ok; ++i) {
+				char **a = argv + 7 + 8 * i;
+				char *path = tok_str(a[1]), *extra = NULL;
+				sqfs_dir_entry_t *ent;
+
+				if (path == NULL) { ok = -1; break; }
+				if (strcmp(a[7], "-") != 0) {
+					if (strncmp(a[7], "p:", 2) != 0 || (extra = tok_str(a[7] + 2)) == NULL) { ok = -1; free(path); break; }
+				}
+				ent = sqfs_dir_entry_create(path, (sqfs_u16)strtoul(a[2], NULL, 10), a[0][0] == 'L' ? SQFS_DIR_ENTRY_FLAG_HARD_LINK : 0);
+				if (ent == NULL) abort();
+				ent->uid = strtoull(a[3], NULL, 10);
+				ent->gid = strtoull(a[4], NULL, 10);
+				ent->mtime = strtoll(a[5], NULL, 10);
+				ent->rdev = strtoull(a[6], NULL, 10);
+				if (fstree_add_generic(&fs, ent, extra) == NULL)
+					ok = 0;
+				free(ent);
+				free(extra);
+				free(path);
+			}
+			if (ok < 0) { puts("bad-op"); fstree_cleanup(&fs); continue; }
+			if (ok && fstree_post_process(&fs) != 0)
+				ok = 0;
+			if (!ok)
+				fputs("err", stdout);
+			else if (strcmp(argv[1], "count") == 0)
+				printf("ok n=%lu", (unsigned long)fs.unique_inode_count);
+			else
+				dump_tree(&fs);
+			fputc('\n', stdout);
+			fstree_cleanup(&fs);
+		} else if (strcmp(argv[0], "isort") == 0) {
+			tree_node_t *c;
+			int i;
+
+			memset(&defaults, 0, sizeof(defaults));
+			defaults.mode = 0755;
+			if (fstree_init(&fs, &defaults)) { puts("bad-op"); continue; }
+			ok = 1;
+			for (i = 1; i < argc && ok; ++i) {
+				char *name = tok_str(argv[i]);
+				sqfs_dir_entry_t *ent;
+
+				if (name == NULL) { ok = 0; break; }
+				ent = sqfs_dir_entry_create(name, S_IFREG | 0644, 0);
+				if (ent == NULL || fstree_add_generic(&fs, ent, NULL) == NULL)
+					ok = 0;
+				free(ent);
+				free(name);
+			}
+			if (ok) {
+				fputs("ok", stdout);
+				for (c = fs.root->data.children; c != NULL; c = c->next) {
+					fputc(' ', stdout);
+					hex_print(stdout, (const unsigned char *)c->name, strlen(c->name));
+				}
+				fputc('\n', stdout);
+			} else {
+				puts("err");
+			}
+			fstree_cleanup(&fs);
+		} else if (argc >= 3 && strcmp(argv[0], "sortfiles") == 0) {
+			char *sortpath = tok_str(argv[1]);
+			long n = strtol(argv[2], NULL, 10);
+			sqfs_istream_t *sortfile = NULL;
+			tree_node_t *f;
+			long i;
+
+			if (sortpath == NULL || n < 0 || n != argc - 3) { puts("bad-op"); free(sortpath); continue; }
+			memset(&defaults, 0, sizeof(defaults));
+			defaults.mode = 0755;
+			if (fstree_init(&fs, &defaults)) { puts("bad-op"); free(sortpath); continue; }
+			ok = 1;
+			for (i = 0; i < n && ok; ++i) {
+				char *path = tok_str(argv[3 + i]);
+				sqfs_dir_entry_t *ent;
+
+				if (path == NULL) { ok = 0; break; }
+				ent = sqfs_dir_entry_create(path, S_IFREG | 0644, 0);
+				if (ent == NULL || fstree_add_generic(&fs, ent, NULL) == NULL)
+					ok = 0;
+				free(ent);
+				free(path);
+			}
+			if (ok && fstree_post_process(&fs) != 0)
+				ok = 0;
+			if (ok) {
+				fputs("ok pre", stdout);
+				for (f = fs.files; f != NULL; f = f->next_by_type) {
+					fputc(' ', stdout);
+					print_path(f);
+				}
+				if (sqfs_istream_open_file(&sortfile, sortpath, 0) != 0 ||
+				    fstree_sort_files(&fs, sortfile) != 0) {
+					fputs(" post-err\n", stdout);
+				} else {
+					fputs(" post", stdout);
+					for (f = fs.files; f != NULL; f = f->next_by_type) {
+						fputc(' ', stdout);
+						print_path(f);
+						printf(":%d", (int)f->data.file.flags);
+					}
+					fputc('\n', stdout);
+				}
+				if (sortfile != NULL)
+					sqfs_drop(sortfile);
+			} else {
+				puts("err");
+			}
+			fstree_cleanup(&fs);
+			free(sortpath);
 		} else {
 			puts("bad-op");
 		}
